@@ -6,7 +6,7 @@ from ..gtlib import cq, cvec, cmat, cb3, cbool, cseq, jarr, Obs
 from . import common as C, lin
 
 PROP = "C16"
-PROPS_FILE = "props/C16.v"
+PROPS_FILE = ["props/C16.v", "trunc/C16R.v"]
 RULE = ("cases = {linear+RBF features, linear+squared-exponential features, heteroscedastic noise with exp / cosh-1 / step / "
         "rectified-linear link} x Dx in 1..3, Dy in 1..2, number of kernels / noise units in 1..2, Da in {Dy, Dy+1}, "
         "arbitrary rational weights, centres, length scales and NON-ZERO offsets, Gaussian p(x) with R in 1..2 (feature "
